@@ -262,7 +262,7 @@ def check_C04(ctx):
     paths += ctx.run_driver(b, 'corners_all', shards=16, timeout=1200)      # every mpz function on every corner-alphabet operand, destinations exactly allocated
     # rationals, floats, random states, strings and streams (valid and invalid input) under the same heap accounting
     # the bit, add/sub, root and combinatorial drivers pre-shrink every destination to the smallest legal allocation: each call must size its result itself
-    for d, shards in [('c10_mpz', 4), ('c03_mpz', 4), ('c09_mpz', 4), ('c16_comb', 2), ('hist_qf', 8), ('c04_limbs', 8), ('c12', 4), ('c13', 4), ('c13s', 4), ('c19_hist', 4), ('c06_misc', 2), ('c06_mpz', 4), ('c17_stream', 8), ('c18_misc', 2)]:
+    for d, shards in [('c10_mpz', 4), ('c03_mpz', 4), ('c09_mpz', 4), ('c16_comb', 2), ('hist_qf', 8), ('c04_limbs', 8), ('c12', 4), ('c13', 4), ('c13s', 4), ('c19_hist', 4), ('c19_mcorner', 4), ('c06_misc', 2), ('c06_mpz', 4), ('c17_stream', 8), ('c18_misc', 2)]:
         paths += ctx.run_driver(b, d, shards=shards, timeout=900, tier='quick')
     # fence mode: every heap block between two inaccessible pages, alternately flush with the low or the high one: a read or write one limb
     # outside a block the library owns becomes a crash event
@@ -573,7 +573,7 @@ def check_C19(ctx):
     q = ctx.tier == 'quick'
     r = assume_model(ctx, 'RandModels', {'W': 3, 'NMAX': 600 if q else 4000, 'MMAX': 12 if q else 18, 'Variant': '"ok"'}, timeout=3000)
     ctx.model_must_hold(r, what='(urandomm bit count / rejection; LC chunk assembly stays below 2^nbits)')
-    trace_drivers(ctx, [('c19_hist', 16, 1500), ('c19_copy', 8, 900), ('c19_stats', 8, 1500), ('c19_old', 4, 600)], pure_drivers=['c19_hist', 'c19_old'])
+    trace_drivers(ctx, [('c19_hist', 16, 1500), ('c19_mcorner', 8, 900), ('c19_copy', 8, 900), ('c19_stats', 8, 1500), ('c19_old', 4, 600)], pure_drivers=['c19_hist', 'c19_old'])
     return ctx.finish('model_checking',
         rule='R2: RandModels = for every n<=NMAX the bit count of mpz_urandomm makes every value of [0,n-1] reachable by exactly one trial value and accepts at least half of the trials; '
              'the chunk assembly of randget_lc with ARBITRARY chunk contents stays below 2^nbits for every modulus exponent and request length. R3/R1: twin generator states of every kind '
